@@ -477,18 +477,36 @@ pub fn apply_component(base: &[u8], plan: &[Inj], rng: &mut Rng) -> Result<(Vec<
 
 /// Same; the component is encoded `n` times and the module of the LAST encoding is returned.
 pub fn apply_component_n(base: &[u8], plan: &[Inj], rng: &mut Rng, n: usize) -> Result<(Vec<Applied>, Result<Vec<u8>, PanicInfo>, Vec<String>), String> {
-    let comp_bytes = gencomp::wrap_modules(&[base.to_vec()], rng);
+    // 1 case in 3: the component holds the module twice and the plan addresses the SECOND copy (module index 1); the first copy has the
+    // same (function, instruction) coordinates, so code filed under the wrong module index lands silently in a module that must not change
+    let two = rng.chance(1, 3);
+    let t: usize = if two { 1 } else { 0 };
+    let mods: Vec<Vec<u8>> = if two { vec![base.to_vec(), base.to_vec()] } else { vec![base.to_vec()] };
+    let comp_bytes = gencomp::wrap_modules(&mods, rng);
     let mut comp = match catch(|| wirm::Component::parse(&comp_bytes, true)) {
         Ok(Ok(c)) => c,
         Ok(Err(e)) => return Err(format!("component parse: {}", e)),
         Err(p) => return Err(format!("component parse panic: {}", p.sig())),
+    };
+    // what the untouched first copy encodes to (same component, no plan)
+    let untouched: Option<Vec<u8>> = if two {
+        let r = catch(|| wirm::Component::parse(&comp_bytes, true).map(|mut c| c.encode()));
+        match r {
+            Ok(Ok(b)) => match gencomp::extract_modules(&b) {
+                Ok(v) if v.len() == 2 => Some(v[0].clone()),
+                _ => return Err("plain component output unusable".to_string()),
+            },
+            _ => return Err("plain component encode unusable".to_string()),
+        }
+    } else {
+        None
     };
     let mut status = vec![];
     for inj in plan {
         let mut ops: Vec<O<'_>> = probe_ops_for(inj);
         if inj.probe == Probe::HostThenOrig && matches!(inj.path, Path::Iter | Path::IterInjectAt) {
             // neutral alternate: the probe followed by the instruction it replaces (the module-level paths do this in apply_one_module)
-            let orig = comp.modules[0].functions.get(FunctionID(inj.func)).unwrap_local().body.instructions[inj.at].op.clone();
+            let orig = comp.modules[t].functions.get(FunctionID(inj.func)).unwrap_local().body.instructions[inj.at].op.clone();
             ops.push(orig);
         }
         let r = catch(|| {
@@ -497,7 +515,7 @@ pub fn apply_component_n(base: &[u8], plan: &[Inj], rng: &mut Rng, n: usize) -> 
                     let mut it = ComponentIterator::new(&mut comp, HashMap::new());
                     loop {
                         if let (Location::Component { mod_idx, func_idx, instr_idx }, _) = it.curr_loc() {
-                            if *mod_idx == 0 && *func_idx == inj.func && (inj.path == Path::IterInjectAt || instr_idx == inj.at) {
+                            if *mod_idx == t as u32 && *func_idx == inj.func && (inj.path == Path::IterInjectAt || instr_idx == inj.at) {
                                 break;
                             }
                         }
@@ -518,8 +536,17 @@ pub fn apply_component_n(base: &[u8], plan: &[Inj], rng: &mut Rng, n: usize) -> 
                         }
                     }
                 }
+                Path::IterAddInstrAt if inj.mode.clears().is_none() && inj.probe != Probe::HostThenOrig => {
+                    // component iterator standing at its initial position (module 0): the explicit location names the module
+                    let loc = Location::Component { mod_idx: ModuleID(t as u32), func_idx: FunctionID(inj.func), instr_idx: inj.at };
+                    let mut it = ComponentIterator::new(&mut comp, HashMap::new());
+                    set_mode_at(&mut it, inj.mode, loc);
+                    for o in ops {
+                        it.add_instr_at(loc, o);
+                    }
+                }
                 _ => {
-                    let m = &mut comp.modules[0];
+                    let m = &mut comp.modules[t];
                     apply_one_module(m, inj, probe_ops_for(inj));
                 }
             }
@@ -530,7 +557,6 @@ pub fn apply_component_n(base: &[u8], plan: &[Inj], rng: &mut Rng, n: usize) -> 
             Err(p) => return Err(format!("legal-call-panic {} {:?}: {}", mode_path(inj), inj, p.sig())),
         }
     }
-    let _ = ModuleID(0);
     let _ = take_logs();
     let mut enc = catch(|| comp.encode());
     let logs: Vec<String> = take_logs().into_iter().map(|(_, s)| s).collect();
@@ -543,7 +569,14 @@ pub fn apply_component_n(base: &[u8], plan: &[Inj], rng: &mut Rng, n: usize) -> 
     let _ = take_logs();
     let enc = match enc {
         Ok(b) => match gencomp::extract_modules(&b) {
-            Ok(mut v) if v.len() == 1 => Ok(v.remove(0)),
+            Ok(mut v) if v.len() == mods.len() => {
+                if let Some(u) = &untouched {
+                    if &v[0] != u {
+                        return Err("other-module-changed: the plan addressed module 1 of the component, module 0 no longer encodes as it does without the plan".to_string());
+                    }
+                }
+                Ok(v.remove(t))
+            }
             Ok(v) => return Err(format!("component output has {} modules", v.len())),
             Err(e) => return Err(format!("component output undecodable: {}", e)),
         },
@@ -1264,6 +1297,8 @@ impl Lower {
             out.ob(format!("pre-edit:{}", match e { PreEdit::DeleteImportFunc(_) => "delete-import-func", PreEdit::AddImportFunc(_) => "add-import-func" }));
         }
         let applied = if via_component {
+            // the first draw of apply_component_n decides whether the plan addresses the second of two module copies
+            out.ob(format!("component-target:module-{}", if rng.clone().chance(1, 3) { "1-of-2" } else { "0-of-1" }));
             apply_component(g.bytes, &plan, &mut rng)
         } else {
             apply_module_pre(g.bytes, pre, &plan, 1).map(|(s, mut e, l)| (s, e.remove(0), l))
@@ -1276,6 +1311,10 @@ impl Lower {
                 let sig = e.split(": ").last().unwrap_or("").to_string();
                 let what = e.split(' ').nth(1).unwrap_or("").to_string();
                 out.violate(format!("legal-call:{}:{}", what, sig), json!({"plan": plan_json, "error": e, "via_component": via_component, "base_wat": base_wat()}));
+                return out;
+            }
+            Err(e) if e.starts_with("other-module-changed") => {
+                out.violate("component:other-module-changed".to_string(), json!({"plan": plan_json, "error": e, "via_component": via_component, "base_wat": base_wat()}));
                 return out;
             }
             Err(e) => {
